@@ -513,6 +513,22 @@ def gen(rng, tier):
              'data': {'Y': [lib.fhex(x) for x in (1.0, 0.0, 0.0, 0.0)], 'X': [lib.fhex(1.0)] * 4, 'a': [lib.fhex(0.5)] * 4},
              'opts': dict(min_iter=mn, max_iter=mx, tol=lib.fhex(TOL), offset=off, failures=fl, errors=er, catch_first_error=True)}
         cases.append(c)
+    # pre-existing NaN / inf in the period being solved that the offset copy overwrites (the copy must come BEFORE the
+    # pre-existing-value test in both engines), and one it does not overwrite (an exogenous variable / the offset period itself)
+    nanh, one = lib.fhex(float('nan')), lib.fhex(1.0)
+    for entry, er, off, ydata, xdata in [('solve', 'raise', -1, [one, nanh, one, one], [one] * 4), ('solve', 'raise', -1, [one, nanh, nanh, nanh], [one] * 4), ('solve', 'raise', -1, [one, nanh, lib.fhex(float('inf')), one], [one] * 4),
+                                         ('solve_t', 'raise', -1, [one, nanh, one, one], [one] * 4), ('solve', 'skip', -1, [one, nanh, nanh, nanh], [one] * 4),
+                                         ('solve', 'raise', -1, [nanh, one, one, one], [one] * 4), ('solve', 'raise', 1, [one, nanh, one, one], [one] * 4),
+                                         ('solve', 'raise', -1, [one, one, one, one], [one, nanh, one, one]), ('solve', 'replace', -1, [one, nanh, nanh, one], [one] * 4),
+                                         ('solve', 'raise', 0, [one, nanh, one, one], [one] * 4), ('solve', 'ignore', -2, [one, one, nanh, nanh], [one] * 4)]:
+        c = {'kind': 'run', 'prog': p0, 'script': script_of(p0), 'n': 4, 'entry': entry,
+             'data': {'Y': ydata, 'X': xdata, 'a': [lib.fhex(0.5)] * 4},
+             'opts': dict(min_iter=0, max_iter=60, tol=lib.fhex(TOL), offset=off, failures='ignore', errors=er, catch_first_error=True)}
+        if entry == 'solve':
+            c['start'], c['end'] = 1, 3
+        else:
+            c['t'] = 1
+        cases.append(c)
     for i in range(nprog):
         fam = FAMILIES[i % len(FAMILIES)]
         pr = gen_program(rng, fam)
